@@ -9,6 +9,8 @@ LO, HI = -40_000_000, 40_000_000
 
 def _weight(req):
     t = req.split(" ")
+    if len(t) < 5:
+        return 1
     if t[1] in ("hjd", "ljd"):
         return int(t[4]) - int(t[3])
     if t[1] in ("hym", "lym"):
@@ -85,6 +87,52 @@ def refine(mismatches):
         if not found:
             out.append(mm)
     return out + mismatches[8:]
+
+
+def other_instance_groups(kinds):
+    """a second, independent instance of the exported hijri month-table type is loaded between two askings of
+    the same blocks (5 variants: an earlier edition, one ending mid-year with a changed month, lengths swapped,
+    no rows, the same table): the library's own table must not notice"""
+    groups = []
+    for cfg in ("hij-t", "hij-a"):
+        for v in range(5):
+            blocks = []
+            if "jd" in kinds:
+                blocks += ["cal hjd %s %d %d" % (cfg, b, b + BLOCK) for b in (2424832,)]
+                blocks += ["cal jdto %s %d" % (cfg, jd) for jd in range(2453430, 2459800, 97)]
+            if "ym" in kinds:
+                blocks += ["cal hym %s 1280 1536" % cfg]
+                blocks += ["cal mlen %s %d %d" % (cfg, y, m) for y in (1426, 1431, 1432, 1441, 1442, 1443, 1444) for m in range(1, 13)]
+            groups.append(blocks + ["cal other-table %s %d" % (cfg, v)] + blocks)
+    return groups
+
+
+def after_abuse_groups(rng, kinds, tier):
+    """ill-formed dates (month 0 / 13 / 14 / 100+m / 255, day 0 / 31.. / 255) around a day, by-name calls with an
+    unknown name, day numbers far outside the domain — then valid questions about the days and months around it"""
+    groups = []
+    n = 30 if tier == "quick" else 300
+    ks = sorted(set(range(-400, 401, 16)) | {-355, -354, -30, -29, -1, 0, 1, 29, 30, 354, 355, 365, 366})
+    for cfg in CFGS:
+        jds = [rng.randrange(2453300, 2459900) for _ in range(n // 2)] + [rng.randrange(LO + 500, HI - 500) for _ in range(n // 2)]
+        jds += [2457300, 2457311, 2456957, 2459295, 2440588, 1721426, 0]
+        resp, _ = core.ask(core.ORACLE, ["cal jdto %s %d" % (cfg, jd) for jd in jds])
+        g = []
+        for jd, r in zip(jds, resp):
+            t = r.split(" ")
+            g.append("cal abuse %s %d" % (cfg, jd))
+            if "jd" in kinds:
+                g += ["cal jdto %s %d" % (cfg, jd + k) for k in ks]
+            if "ym" in kinds and len(t) == 3:
+                y = int(t[0])
+                for yy in (y - 1, y, y + 1):
+                    if yy == 0 and cfg == "gprol":
+                        continue
+                    g += ["cal mlen %s %d %d" % (cfg, yy, m) for m in range(1, 13)]
+                    g += ["cal tojd %s %d %d 1" % (cfg, yy, m) for m in (1, 2, 12)]
+                    g.append("cal leap %s %d" % (cfg, yy))
+        groups.append(g)
+    return groups
 
 
 class CalSpec(Spec):
@@ -186,6 +234,8 @@ class CalSpec(Spec):
                             reqs.append("@tz=%s cal hym %s %d %d" % (z, cfg, y, y + 256))
             if reqs:
                 sts.append(Stream("cal-years-zones", reqs, weight=_weight, refine=refine))
+        sts.append(Stream("cal-other-instance", None, weight=_weight, refine=refine, groups=other_instance_groups(self.kinds)))
+        sts.append(Stream("cal-after-ill-formed-calls", None, weight=_weight, groups=after_abuse_groups(rng, self.kinds, tier)))
         return sts
 
     def exhaustive(self, tier):
